@@ -29,7 +29,9 @@ RULE = (
     "{1e-3, 1e3} on one grid per family, where the discretization is also repeated on the SAME "
     "grid and data dictionary; grid, stiffness and bc arrays are digested before / after (purity); "
     "valid NON-CONVEX grids: 5 dart-quadrilateral grids (positive volumes adding up to the domain "
-    "measure, closed and non-self-intersecting cells, centroid outside an own face)"
+    "measure, closed and non-self-intersecting cells, centroid outside an own face); sequences: ONE "
+    "Tpsa object used for two grids in a row (same sizes / different topology; same topology / "
+    "different geometry; the same grid object moved)"
 )
 ASSUMPTIONS = [
     "constant Lame parameters; every boundary face entirely Dirichlet (value = translation) "
@@ -102,6 +104,10 @@ def cases(tier):
     # centre-to-face distance): side-wise + <=1 flips (thorough: <=2), all Lame pairs
     for sp in DARTS:
         out += _sides_flips(sp, 1 if tier == "quick" else 2)
+    # ONE Tpsa object reused for two grids (same sizes / different topology; same topology /
+    # different geometry; the same grid object moved)
+    for kind, s1, s2 in G.SEQ_PAIRS_2D + G.SEQ_PAIRS_3D:
+        out += [dict(c, seq=[kind, s1, s2]) for c in _c(s1, {"mode": "sides", "part": 0, "nparts": 1})]
     c22, t22 = {"kind": "cart", "n": [2, 2]}, {"kind": "tri", "n": [2, 2]}
     c32, t32 = {"kind": "cart", "n": [3, 2]}, {"kind": "tri", "n": [3, 2]}
     tet1 = {"kind": "tet", "n": [1, 1, 1]}
@@ -153,6 +159,18 @@ def _gridclass(spec):
 
 
 def run_case(case) -> Outcome:
+    if "seq" not in case:
+        return _run_single(case)
+    # ONE Tpsa object for both grids of the pair
+    out = Outcome()
+    shared = {"kind": case["seq"][0], "step": 0}
+    for spec in case["seq"][1:]:
+        shared["step"] += 1
+        out.merge(_run_single(dict(case, grid=spec), shared))
+    return out
+
+
+def _run_single(case, shared=None) -> Outcome:
     import porepy as pp
 
     out = Outcome()
@@ -167,7 +185,10 @@ def run_case(case) -> Outcome:
         return out
 
     spec, mu, lam = case["grid"], case["mu"], case["lam"]
-    g = G.build(spec)
+    g = G.get_grid(spec, shared)
+    seq_disc = None
+    if shared is not None:
+        seq_disc = shared.setdefault("disc", pp.Tpsa(T.KW))
     d, nf, nc = g.dim, g.num_faces, g.num_cells
     rd = T.rot_dim(d)
     bf = G.boundary_faces(g)
@@ -181,6 +202,8 @@ def run_case(case) -> Outcome:
     if spec.get("scale", 1) != 1:
         gcls += f"/x{spec['scale']:g}"
     reuse = bool(case.get("reuse"))
+    if shared is not None:
+        gcls += f"/seq-{shared['kind']}{shared['step']}"
     tol_s = TOL * 2 * mu * amax / hmin
     tol_u, tol_r, tol_p = TOL, TOL * mu / hmin, TOL * max(mu, lam) / hmin
     tol_res = TOL * amax * max(2 * mu / hmin, 1.0)
@@ -197,7 +220,7 @@ def run_case(case) -> Outcome:
         singular = False
         try:
             dig0 = G.digest(g, bc)
-            disc, M = T.discretize(g, mu, lam, bc, twice=reuse)
+            disc, M = T.discretize(g, mu, lam, bc, twice=reuse, disc=seq_disc)
             if G.digest(g, bc) != dig0:
                 out.violate("Tpsa.discretize modified its grid / boundary-condition arguments", **base)
                 out.ev(f"{gcls}/{bccls}/impure/VIOLATION")
@@ -221,7 +244,7 @@ def run_case(case) -> Outcome:
             bcv[:, dirf] = a[:, None]
             bcvv = bcv.ravel("F")
             nontrivial = (not korth) or bool(neu)
-            key = (gname, mu, lam, tuple(neu), i) if nontrivial else None
+            key = (gname, mu, lam, tuple(neu), i, shared["step"] if shared else 0) if nontrivial else None
             bad = None
             st = S @ uc + BS @ bcvv
             if not np.all(np.isfinite(st)) or np.abs(st).max() > tol_s:
